@@ -516,7 +516,7 @@ func (t *Thread) processIncomingData(packet *defn.Pkt) {
 			pitEntry.SetSatisfied(true)
 
 			// Insert into dead nonce list
-			for _, outRecord := range pitEntries[0].GetOutRecords() {
+			for _, outRecord := range pitEntry.GetOutRecords() {
 				t.deadNonceList.Insert(outRecord.LatestInterest, outRecord.LatestNonce)
 			}
 
